@@ -67,6 +67,51 @@ ValsOK(segs, call) ==
   /\ Len(vals) = Len(call.f)
   /\ \A i \in 1..Len(vals) : Same(vals[i], call.f[i]) \/ NumEq(vals[i], call.f[i])
 
+(* Colour texts, selector / ADJ / repeat-count integers and arc flags printed  *)
+(* for a step are those of the delivered call.                                 *)
+ExpCol1(c) ==
+  IF c[1] = 0 THEN
+    LET q == RGBAOf(c) IN
+    IF ValidPremul(q) THEN [k |-> "rgba", v |-> q]
+    ELSE IF IsGradient(q)
+      THEN [k |-> "gradient", v |-> << GradNStops(q), GradCBase(q), GradNBase(q), GradShape(q), GradSpread(q) >>]
+    ELSE [k |-> "nonsense", v |-> << >>]
+  ELSE IF c[1] = 1 THEN [k |-> "pal", v |-> << c[2] >>]
+  ELSE [k |-> "creg", v |-> << c[2] >>]
+Col1OK(o, c) == LET e == ExpCol1(c) IN o.k = e.k /\ o.v = e.v
+ColOK(o, c) ==
+  IF c[1] = 3 THEN /\ o.k = "blend" /\ o.v = << 255 - c[2], c[2] >>
+                   /\ Has(o, "c0") /\ Has(o, "c1")
+                   /\ Col1OK(o.c0, Dec1(c[3])) /\ Col1OK(o.c1, Dec1(c[4]))
+  ELSE Col1OK(o, c)
+
+LineCol(i) == IF li + i <= Len(Lines) /\ Has(Lines[li + i], "col") THEN Lines[li + i].col
+              ELSE [k |-> "none", v |-> << >>]
+
+OpTextOK(stBefore, call) ==
+  LET ln  == Lines[li + 1]
+      opb == B[stBefore.pos] IN
+  CASE call.op \in {"SetCSel", "SetNSel"} -> ln.ints = << call.sel >>
+    [] call.op = "SetCReg" -> /\ ln.ints = << call.adj, FormLen(CRegForm(opb)) >> /\ ln.pp = call.incr
+                              /\ ColOK(LineCol(2), call.c)
+    [] call.op = "SetNReg" -> ln.ints = << call.adj >> /\ ln.pp = call.incr
+    [] call.op = "StartPath" -> ln.ints = << call.adj >>
+    [] call.op \in {"AbsArcTo", "RelArcTo"} ->
+         /\ ln.ints = (IF stBefore.reps = 0 THEN << RepOp(opb).rc >> ELSE << >>)
+         /\ LineCol(5).k = "flags" /\ LineCol(5).v = call.fl
+    [] stBefore.mode = "drawing" /\ stBefore.reps = 0 /\ opb < 224 -> ln.ints = << RepOp(opb).rc >>
+    [] OTHER -> ln.ints = << >>
+
+(* the colours listed in the metadata section are the explicit entries of the  *)
+(* palette that Reset delivers (sanitised)                                     *)
+RECURSIVE MetaCols(_, _)
+MetaCols(i, n) == IF i > n THEN << >>
+                  ELSE (IF Has(Lines[li + i], "col") THEN << Lines[li + i].col >> ELSE << >>) \o MetaCols(i + 1, n)
+MetaColsOK(segs, call) ==
+  Opts # << >> \/
+  LET cs == MetaCols(1, Len(segs)) IN
+  \A i \in 1..Len(cs) : i <= 64 /\ cs[i].k = "rgba" /\ cs[i].v = call.pal[i]
+
 (* cut points strictly inside a step [p0, p1): error, calls so far *)
 CutsInside(p0, p1) ==
   Cuts = << >> \/
@@ -111,6 +156,8 @@ TVCall ==
      ELSE IF Has(ev, "rz") /\ ~ShapeOK(ev.call.op, ev.rz) THEN Bad("rasteriser shape", ev.call.op)
      ELSE IF Lines # << >> /\ ~LinesOK(r.segs, 1, st.pos) THEN Bad("listing bytes", << li, r.segs >>)
      ELSE IF Lines # << >> /\ r.out.call.op # "Reset" /\ ~ValsOK(r.segs, r.out.call) THEN Bad("listing values", << li, r.out.call >>)
+     ELSE IF Lines # << >> /\ r.out.call.op # "Reset" /\ ~OpTextOK(st, r.out.call) THEN Bad("listing text", << li, r.out.call >>)
+     ELSE IF Lines # << >> /\ r.out.call.op = "Reset" /\ ~MetaColsOK(r.segs, r.out.call) THEN Bad("listing text", << li, "palette" >>)
      ELSE IF ~CutsInside(st.pos, r.st.pos) THEN Bad("prefix (inside instruction)", << st.pos, r.st.pos, nOut, h >>)
      ELSE IF ~CutAtBoundary(r.st.pos, r.st.reps, ev.h) THEN Bad("prefix (at boundary)", << r.st.pos, nOut + 1, ev.h >>)
      ELSE /\ st' = r.st /\ nOut' = nOut + 1 /\ h' = ev.h
